@@ -30,6 +30,7 @@ class Out:
 
 
 NONE_SV = SV(NONE)
+str_startswith = z3.Function("str_startswith", Val, Val, z3.BoolSort())   # prefix test on opaque strings
 str_contains = z3.Function("str_contains", Val, Val, z3.BoolSort())       # substring test on opaque strings
 
 
@@ -632,7 +633,7 @@ class ExecBase:
             res.append(s.raise_new(bad, "IndexError", site=site))
         return res
 
-    def slice_seq(s, p, obj, lo, hi, st, node):
+    def slice_seq(s, p, obj, lo, hi, st, node, kind_override=None):
         """seq[lo:hi:step] with exact PySlice_AdjustIndices semantics for step in {+1, -1}"""
         step = 1
         if st is not None:
@@ -663,7 +664,7 @@ class ExecBase:
         else:
             newlen = If(start > stop, start - stop, 0)
         arr = fresh("slice_el", AV)
-        kindname = obj.get("ty") if obj.get("ty") in ("tuple", "list") else "list"
+        kindname = kind_override or (obj.get("ty") if obj.get("ty") in ("tuple", "list") else "list")
         new = p.new_seq(kindname, length=newlen, arr=arr)
         p.add_schema(new, lambda pth, j: Implies(And(j >= 0, j < newlen),
                                                 Select(arr, j) == pth.read(v, H.lo_(v) + start + step * j, H)))
@@ -774,6 +775,13 @@ class ExecBase:
                 def complete(i):
                     c, _, facts = at_source(i)
                     return Implies(And(i >= 0, i < nn, c), And(pos(i) >= 0, pos(i) < m, src(pos(i)) == i))
+                cn = z3.simplify(nn)
+                if z3.is_int_value(cn) and cn.as_long() <= 16:
+                    for i_ in range(cn.as_long()):          # concrete source: completeness at every index, eagerly
+                        pb.pc.append(complete(IntVal(i_)))
+                elif seqv.get("special") is None and seqv.get("ty") in ("list", "tuple", "deque"):
+                    Hs = base.snap()                          # symbolic source: completeness wherever the source is read
+                    pb.add_schema(seqv.t, lambda pth, ja: complete(ja - Hs.lo_(seqv.t)))
                 pb.ghost[f"filter:{n.lineno}"] = dict(new=new, m=m, src=src, pos=pos, n=nn, source=seqv, complete=complete, elem=elem)
                 return outs + [("ok", pb, SV(new, ty=kname, comp_of=seqv))]
             if lazy:
